@@ -159,7 +159,9 @@ type env struct {
 	rpc    *rainrpc.Client
 	useRPC bool
 	pool   []*meta
-	known  []string // ids ever returned by a successful add in this trace
+	mu     sync.Mutex
+	known  []string       // ids returned by successful adds, in creation order (scenario choices must not depend on generated ids)
+	fresh  map[int]string // ids added by the callers of the current burst round, by caller
 	dead   bool     // the session panicked inside Close: the trace ends
 }
 
@@ -402,6 +404,15 @@ func (e *env) callAdd(g int, a addSpec) {
 		}
 	}()
 	e.T.emit(ev{"op": "ret", "g": g, "res": res, "id": id, "port": port, "at": at})
+	if res == "ok" {
+		e.mu.Lock()
+		if e.fresh != nil {
+			e.fresh[g] = id
+		} else {
+			e.known = append(e.known, id)
+		}
+		e.mu.Unlock()
+	}
 }
 
 func classify(err error) string {
@@ -415,6 +426,9 @@ func classify(err error) string {
 		return "storage"
 	case strings.Contains(s, "torrent not found"):
 		return "notfound"
+	case strings.HasSuffix(s, "EOF") || strings.Contains(s, "connection reset") || strings.Contains(s, "broken pipe"):
+		// RPC: the handler panicked, net/http recovered it and dropped the connection
+		return "panic"
 	}
 	var ie *torrent.InputError
 	if errors.As(err, &ie) {
@@ -632,13 +646,15 @@ func (e *env) randAdd() addSpec {
 }
 
 func (e *env) someID() string {
-	lt := e.s.ListTorrents()
-	if len(lt) > 0 && e.rng.Intn(8) != 0 {
-		ids := make([]string, len(lt))
-		for i, t := range lt {
-			ids[i] = t.ID()
+	var ids []string
+	seen := map[string]bool{}
+	for _, id := range e.known {
+		if !seen[id] && e.s.GetTorrent(id) != nil {
+			ids = append(ids, id)
 		}
-		sort.Strings(ids)
+		seen[id] = true
+	}
+	if len(ids) > 0 && e.rng.Intn(8) != 0 {
 		return ids[e.rng.Intn(len(ids))]
 	}
 	return explicitIDs[e.rng.Intn(len(explicitIDs))]
@@ -686,10 +702,12 @@ func (e *env) randOp(g int, concurrent bool) func() {
 	default:
 		var corrupt []string
 		if e.rng.Intn(4) == 0 {
-			for _, t := range e.s.ListTorrents() {
-				if e.rng.Intn(3) == 0 {
-					corrupt = append(corrupt, t.ID())
+			seen := map[string]bool{}
+			for _, id := range e.known {
+				if !seen[id] && e.s.GetTorrent(id) != nil && e.rng.Intn(3) == 0 {
+					corrupt = append(corrupt, id)
 				}
+				seen[id] = true
 			}
 			sort.Strings(corrupt)
 		}
@@ -770,6 +788,7 @@ func burstTrace(T *tracer, pool []*meta, seed int64, idx, k, rounds int, sameID 
 				fs[g] = e.randOp(g+1, true)
 			}
 		}
+		e.fresh = map[int]string{}
 		var wg sync.WaitGroup
 		start := make(chan struct{})
 		for g := 0; g < k; g++ {
@@ -782,6 +801,12 @@ func burstTrace(T *tracer, pool []*meta, seed int64, idx, k, rounds int, sameID 
 		}
 		close(start)
 		wg.Wait()
+		for g := 1; g <= k; g++ {
+			if id, ok := e.fresh[g]; ok {
+				e.known = append(e.known, id)
+			}
+		}
+		e.fresh = nil
 		e.obs()
 	}
 	if !e.dead && rng.Intn(2) == 0 {
@@ -865,8 +890,8 @@ func probeTrace(T *tracer, pool []*meta, seed int64, idx int) {
 			e.callAdd(1, addSpec{m: m, kind: []string{"torrent", "magnet"}[i%2], stopped: i%3 != 0, sad: i%2 == 0, sam: i == 1, sq: i >= 2})
 			e.obs()
 		}
-		for _, t := range e.s.ListTorrents() {
-			e.callBump(1, t.ID(), [4]int64{1<<40 + 7, 3, 0, 1500000001})
+		for _, id := range e.known {
+			e.callBump(1, id, [4]int64{1<<40 + 7, 3, 0, 1500000001})
 		}
 		e.obs()
 		e.callReopen(1, nil)
@@ -912,12 +937,40 @@ func child(mode string, seed int64, from, to, nops, k int, out string) {
 	}
 }
 
-// supervisor: runs the child, and if it dies appends a crash line and resumes with the next trace.
-func run(mode string, seed int64, n, nops, k int, out string) {
+// supervisor: runs children (par of them side by side, each on a contiguous range of trace indices); if a child dies it
+// appends a crash line to that child's file and resumes the range with the next trace.
+func run(mode string, seed int64, n, nops, k, par int, out string) {
 	os.Remove(out)
-	raw := out + ".raw"
-	os.Remove(raw)
-	from := 0
+	if par < 1 {
+		par = 1
+	}
+	if par > n {
+		par = n
+	}
+	raws := make([]string, par)
+	crashes := make([]int, par)
+	var wg sync.WaitGroup
+	for p := 0; p < par; p++ {
+		raws[p] = fmt.Sprintf("%s.raw%d", out, p)
+		os.Remove(raws[p])
+		lo, hi := p*n/par, (p+1)*n/par
+		wg.Add(1)
+		go func(p, lo, hi int) {
+			defer wg.Done()
+			crashes[p] = runRange(mode, seed, lo, hi, nops, k, raws[p])
+		}(p, lo, hi)
+	}
+	wg.Wait()
+	nev, ntr := postprocess(raws, out)
+	total := 0
+	for p := range raws {
+		os.Remove(raws[p])
+		total += crashes[p]
+	}
+	fmt.Printf("{\"events\":%d,\"traces\":%d,\"crashes\":%d}\n", nev, ntr, total)
+}
+
+func runRange(mode string, seed int64, from, n, nops, k int, raw string) int {
 	crashes := 0
 	for from < n {
 		cmd := exec.Command(os.Args[0], "child", "-mode", mode, "-seed", fmt.Sprint(seed), "-from", fmt.Sprint(from), "-to", fmt.Sprint(n),
@@ -934,7 +987,7 @@ func run(mode string, seed int64, n, nops, k int, out string) {
 		what := "crash"
 		select {
 		case err = <-done:
-		case <-time.After(time.Duration(120+n/2) * time.Second):
+		case <-time.After(time.Duration(180+(n-from)*2) * time.Second):
 			cmd.Process.Kill()
 			err = <-done
 			what = "hang"
@@ -945,7 +998,7 @@ func run(mode string, seed int64, n, nops, k int, out string) {
 		crashes++
 		last := lastIdx(raw)
 		site := crashSite(stderr.String())
-		f, _ := os.OpenFile(raw, os.O_WRONLY|os.O_APPEND, 0644)
+		f, _ := os.OpenFile(raw, os.O_CREATE|os.O_WRONLY|os.O_APPEND, 0644)
 		b, _ := json.Marshal(ev{"op": "crash", "what": what, "site": site})
 		f.Write(append(b, '\n'))
 		f.Close()
@@ -959,9 +1012,7 @@ func run(mode string, seed int64, n, nops, k int, out string) {
 			os.Exit(3)
 		}
 	}
-	nev, ntr := postprocess(raw, out)
-	os.Remove(raw)
-	fmt.Printf("{\"events\":%d,\"traces\":%d,\"crashes\":%d}\n", nev, ntr, crashes)
+	return crashes
 }
 
 func lastIdx(path string) int {
@@ -1012,23 +1063,25 @@ func crashSite(stderr string) string {
 // postprocess copies the outcome of every call into its call line (r_res, r_id, r_port, r_at: the trace specification
 // looks ahead instead of guessing), drops the sequence numbers' gaps and guarantees that every line has the fields
 // the specification reads.
-func postprocess(raw, out string) (int, int) {
-	f, err := os.Open(raw)
-	if err != nil {
-		panic(err)
-	}
-	defer f.Close()
+func postprocess(raws []string, out string) (int, int) {
 	var evs []ev
-	sc := bufio.NewScanner(f)
-	sc.Buffer(make([]byte, 1<<20), 1<<28)
-	for sc.Scan() {
-		var e ev
-		d := json.NewDecoder(bytes.NewReader(sc.Bytes()))
-		d.UseNumber()
-		if d.Decode(&e) != nil {
-			continue // a torn last line of a crashed child
+	for _, raw := range raws {
+		f, err := os.Open(raw)
+		if err != nil {
+			continue
 		}
-		evs = append(evs, e)
+		sc := bufio.NewScanner(f)
+		sc.Buffer(make([]byte, 1<<20), 1<<28)
+		for sc.Scan() {
+			var e ev
+			d := json.NewDecoder(bytes.NewReader(sc.Bytes()))
+			d.UseNumber()
+			if d.Decode(&e) != nil {
+				continue // a torn last line of a crashed child
+			}
+			evs = append(evs, e)
+		}
+		f.Close()
 	}
 	ntr := 0
 	for i, e := range evs {
@@ -1084,12 +1137,13 @@ func main() {
 	to := fs.Int("to", 0, "")
 	nops := fs.Int("ops", 12, "ops per sequence / rounds per burst trace")
 	k := fs.Int("k", 2, "concurrent callers")
+	par := fs.Int("par", 1, "children side by side")
 	out := fs.String("out", "trace.ndjson", "")
 	cases := fs.String("cases", "", "")
 	fs.Parse(os.Args[2:])
 	switch os.Args[1] {
 	case "run":
-		run(*mode, *seed, *n, *nops, *k, *out)
+		run(*mode, *seed, *n, *nops, *k, *par, *out)
 	case "child":
 		child(*mode, *seed, *from, *to, *nops, *k, *out)
 	case "codec":
